@@ -3,6 +3,7 @@ package rules
 import (
 	"go/token"
 	"go/types"
+	"strings"
 
 	"golang.org/x/tools/go/ssa"
 
@@ -52,12 +53,16 @@ func c14Kahn(e *Env, hc, addEdge *ssa.Function) {
 }
 
 type kahn struct {
-	e     *Env
-	fn    *ssa.Function
-	D     *ssa.MakeMap
-	loops []*ir.Loop
-	main  *ir.Loop // the work-list loop
-	qphi  *ssa.Phi // the work list at the loop header
+	e      *Env
+	fn     *ssa.Function
+	D      *ssa.MakeMap
+	dcall  *ssa.Call     // the degree table is built by a single-call-site helper: its call in fn
+	initFn *ssa.Function // where the table is filled (fn, or that helper)
+	cursor *ssa.Phi      // index-cursor form of the work list: `for h := 0; h < len(q); h++ { x := q[h] … }`
+	gtype  types.Type    // the graph's struct type
+	loops  []*ir.Loop
+	main   *ir.Loop // the work-list loop
+	qphi   *ssa.Phi // the work list at the loop header
 	// adjacency roles from addEdge: field index -> "A" (keyed by the first
 	// parameter, holds the second) | "B" (the inverse)
 	role map[int]string
@@ -102,9 +107,11 @@ func (k *kahn) samePath(a, b ssa.Value) bool {
 	return oka && okb && len(pa.Fields) > 0 && pa.Dotted() == pb.Dotted() && (SameValue(pa.Root, pb.Root) || sameElem(pa.Root, pb.Root))
 }
 
-// graphField: v is a load of g.<field> of the receiver; returns the field index.
+// graphField: v is a load of <graph>.<field> (the receiver's field, or - when the
+// test is a plain function handed the graph's maps - the argument it was called
+// with); returns the field index.
 func (k *kahn) graphField(v ssa.Value) (int, bool) {
-	u, ok := ir.Resolve(v).(*ssa.UnOp)
+	u, ok := ir.Deep(v).(*ssa.UnOp)
 	if !ok || u.Op != token.MUL {
 		return 0, false
 	}
@@ -112,17 +119,40 @@ func (k *kahn) graphField(v ssa.Value) (int, bool) {
 	if !ok {
 		return 0, false
 	}
-	if len(k.fn.Params) == 0 || ir.Resolve(fa.X) != ssa.Value(k.fn.Params[0]) {
+	if !strings.HasSuffix(ir.NamedType(fa.X.Type()), ".ExecutionGraph") {
 		return 0, false
+	}
+	if k.gtype == nil {
+		k.gtype = fa.X.Type()
 	}
 	return fa.Field, true
 }
 
+func (k *kahn) graphStruct() (*types.Struct, bool) {
+	if k.gtype == nil {
+		if sp := k.e.P.Pkg(schedRel); sp != nil {
+			if t := sp.Type("ExecutionGraph"); t != nil {
+				k.gtype = t.Type()
+			}
+		}
+	}
+	if k.gtype == nil {
+		return nil, false
+	}
+	return derefStruct(k.gtype)
+}
+
 func (k *kahn) fieldName(i int) string {
-	if len(k.fn.Params) == 0 {
+	st, ok := k.graphStruct()
+	if !ok || i < 0 || i >= st.NumFields() {
 		return "?"
 	}
-	return ir.FieldNameOf(k.fn.Params[0].Type(), i)
+	return st.Field(i).Name()
+}
+
+func (k *kahn) isD(v ssa.Value) bool {
+	r := ir.Resolve(v)
+	return r == ssa.Value(k.D) || (k.dcall != nil && r == ssa.Value(k.dcall))
 }
 
 // shape: one local int-valued map and a loop `for len(q) > 0` over a slice phi.
@@ -135,6 +165,47 @@ func (k *kahn) shape() bool {
 					if bt, ok := mt.Elem().Underlying().(*types.Basic); ok && bt.Info()&types.IsInteger != 0 {
 						maps = append(maps, mm)
 					}
+				}
+			}
+		}
+	}
+	k.initFn = k.fn
+	if len(maps) == 0 {
+		// the table built by a single-call-site helper that returns it
+		for _, b := range k.fn.Blocks {
+			for _, in := range b.Instrs {
+				c, ok := in.(*ssa.Call)
+				if !ok {
+					continue
+				}
+				h := c.Call.StaticCallee()
+				if h == nil || !k.e.P.Funcs[h] || h.Blocks == nil || ir.UniqueSite(h) == nil {
+					continue
+				}
+				mt, isM := c.Type().Underlying().(*types.Map)
+				if !isM {
+					continue
+				}
+				if bt, isB := mt.Elem().Underlying().(*types.Basic); !isB || bt.Info()&types.IsInteger == 0 {
+					continue
+				}
+				var hm []*ssa.MakeMap
+				for _, hb := range h.Blocks {
+					for _, hin := range hb.Instrs {
+						if mm, isMM := hin.(*ssa.MakeMap); isMM && types.Identical(mm.Type(), c.Type()) {
+							hm = append(hm, mm)
+						}
+					}
+				}
+				returnsIt := len(hm) == 1
+				for _, hb := range h.Blocks {
+					if rt, isR := hb.Instrs[len(hb.Instrs)-1].(*ssa.Return); isR && (len(rt.Results) != 1 || len(hm) != 1 || ir.Resolve(rt.Results[0]) != ssa.Value(hm[0])) {
+						returnsIt = false
+					}
+				}
+				if returnsIt {
+					maps = append(maps, hm[0])
+					k.dcall, k.initFn = c, h
 				}
 			}
 		}
@@ -153,11 +224,16 @@ func (k *kahn) shape() bool {
 		if !ok {
 			continue
 		}
-		for _, side := range []ssa.Value{b.X, b.Y} {
+		for si, side := range []ssa.Value{b.X, b.Y} {
 			if x, ok := lenArg(side); ok {
 				if ph, ok := x.(*ssa.Phi); ok && ph.Block() == l.Header {
 					if _, isSl := ph.Type().Underlying().(*types.Slice); isSl {
 						k.main, k.qphi = l, ph
+						// `cursor < len(q)`: the other side is an int φ of the same header
+						other := []ssa.Value{b.X, b.Y}[1-si]
+						if cp, isP := other.(*ssa.Phi); isP && cp.Block() == l.Header && cp.Type().String() == "int" {
+							k.cursor = cp
+						}
 					}
 				}
 			}
@@ -200,10 +276,10 @@ func (k *kahn) adjacencyRoles(addEdge *ssa.Function) {
 	// written
 	k.role = map[int]string{}
 	gr := k.e.graphRoles()
-	if !gr.ok || len(k.fn.Params) == 0 {
+	if !gr.ok {
 		return
 	}
-	st, ok := derefStruct(k.fn.Params[0].Type())
+	st, ok := k.graphStruct()
 	if !ok {
 		return
 	}
@@ -237,7 +313,7 @@ func (k *kahn) isValTest(l ir.NLit, key ssa.Value, n int64) (*ssa.Lookup, bool) 
 		return nil, false
 	}
 	lk, ok := ir.Resolve(l.X).(*ssa.Lookup)
-	if !ok || ir.Resolve(lk.X) != ssa.Value(k.D) || !k.samePath(lk.Index, key) {
+	if !ok || !k.isD(lk.X) || !k.samePath(lk.Index, key) {
 		return nil, false
 	}
 	c, isC := ir.ConstInt(l.Y)
@@ -251,8 +327,125 @@ func (k *kahn) isValTest(l ir.NLit, key ssa.Value, n int64) (*ssa.Lookup, bool) 
 	return nil, false
 }
 
+// checkPopCursor: the work list read through an index cursor. "Removing exactly
+// the element read" becomes: the element read is q[cursor], the cursor starts at
+// 0 and is advanced by exactly one on every way round the loop, the loop runs
+// while cursor < len(q), and q itself only grows by appends.
+func (k *kahn) checkPopCursor() {
+	e, r := k.e, k.e.R
+	if ex, ok := k.exitLit(); ok {
+		good := false
+		if ex.Kind == "cmp" && (ex.Op == token.LEQ || ex.Op == token.LSS) {
+			// exit under !(cursor < len(q)): len(q) <= cursor
+			if x, isLen := lenArg(ex.X); isLen && x == ssa.Value(k.qphi) && ex.Y == ssa.Value(k.cursor) && ex.Op == token.LEQ {
+				good = true
+			}
+		}
+		r.Check(good, "cycle test: the work list is processed until it is empty", e.InstrPos(k.main.Header.Instrs[len(k.main.Header.Instrs)-1]),
+			"the elimination loop stops although nodes are still queued (or runs on an empty queue): nodes that could be resolved are reported as part of a cycle", "loop exit: "+e.C.RenderLit(ex))
+	}
+	// cursor: 0 at entry, +1 on every back edge
+	okCur := true
+	for i, p := range k.cursor.Block().Preds {
+		ed := k.cursor.Edges[i]
+		if !k.main.Blocks[p] {
+			if c, isC := ir.ConstInt(ed); !isC || c != 0 {
+				okCur = false
+			}
+			continue
+		}
+		var plusOne func(v ssa.Value, d int) bool
+		plusOne = func(v ssa.Value, d int) bool {
+			if ph, isP := v.(*ssa.Phi); isP && ph != k.cursor && d < 4 {
+				for _, x := range ph.Edges {
+					if !plusOne(x, d+1) {
+						return false
+					}
+				}
+				return len(ph.Edges) > 0
+			}
+			bo, isB := v.(*ssa.BinOp)
+			if !isB || bo.Op != token.ADD || bo.X != ssa.Value(k.cursor) {
+				return false
+			}
+			c, isC := ir.ConstInt(bo.Y)
+			return isC && c == 1
+		}
+		if !plusOne(ed, 0) {
+			okCur = false
+		}
+	}
+	// the element read: q[cursor]
+	var reads []ssa.Value
+	for b := range k.main.Blocks {
+		for _, in := range b.Instrs {
+			ia, ok := in.(*ssa.IndexAddr)
+			if !ok || ia.X != ssa.Value(k.qphi) {
+				continue
+			}
+			if ia.Index != ssa.Value(k.cursor) {
+				okCur = false
+				continue
+			}
+			for _, ref := range *ia.Referrers() {
+				if u, isU := ref.(*ssa.UnOp); isU && u.Op == token.MUL {
+					reads = append(reads, u)
+				}
+			}
+		}
+	}
+	ok := okCur && len(reads) == 1
+	if ok {
+		k.popped = reads[0]
+	}
+	r.Check(ok, "cycle test: each iteration removes exactly the queue element it reads", e.InstrPos(k.main.Header.Instrs[0]),
+		"the element taken from the work list and the position advanced over differ (or the cursor is not advanced by exactly one): a queued node is dropped without being relaxed, or one is relaxed twice",
+		sprintf("queue reads at the cursor: %d", len(reads)))
+	if !ok {
+		return
+	}
+	// the queue carried round the loop is the same queue plus appends
+	leaked := false
+	seen := map[ssa.Value]bool{}
+	var walk func(v ssa.Value)
+	walk = func(v ssa.Value) {
+		if v == nil || seen[v] {
+			return
+		}
+		seen[v] = true
+		if v == ssa.Value(k.qphi) {
+			return
+		}
+		switch x := v.(type) {
+		case *ssa.Phi:
+			for _, ed := range x.Edges {
+				walk(ed)
+			}
+		case *ssa.Call:
+			if c, isA := isAppend(x); isA {
+				walk(c.Call.Args[0])
+				return
+			}
+			leaked = true
+		default:
+			leaked = true
+		}
+	}
+	for i, p := range k.qphi.Block().Preds {
+		if k.main.Blocks[p] {
+			walk(k.qphi.Edges[i])
+		}
+	}
+	r.Check(!leaked, "cycle test: the work list carried to the next iteration is the popped one (plus newly enqueued nodes)", e.InstrPos(k.main.Header.Instrs[0]),
+		"the next iteration sees a queue that is not the one being walked plus the newly enqueued nodes")
+}
+
 func (k *kahn) checkPop() {
 	e, r := k.e, k.e.R
+	if k.cursor != nil {
+		k.checkPopCursor()
+		return
+	}
 	// loop runs while the queue is non-empty
 	if ex, ok := k.exitLit(); ok {
 		good := false
@@ -381,20 +574,24 @@ func (k *kahn) checkInit() {
 	e, r := k.e, k.e.R
 	n := 0
 	k.initFld = -1
-	for _, b := range k.fn.Blocks {
-		if k.main.Blocks[b] {
+	initLoops := k.loops
+	if k.initFn != k.fn {
+		initLoops = ir.Loops(k.initFn)
+	}
+	for _, b := range k.initFn.Blocks {
+		if k.initFn == k.fn && k.main.Blocks[b] {
 			continue
 		}
 		for _, in := range b.Instrs {
 			mu, ok := in.(*ssa.MapUpdate)
-			if !ok || ir.Resolve(mu.Map) != ssa.Value(k.D) {
+			if !ok || !k.isD(mu.Map) {
 				continue
 			}
 			n++
 			good := false
 			fld := -1
 			if x, isLen := lenArg(mu.Value); isLen {
-				l := ir.InnermostLoop(k.loops, b)
+				l := ir.InnermostLoop(initLoops, b)
 				// for key, list := range g.M { D[key] = len(list) }
 				if l != nil && l.Ranged != nil && l.Elem != nil && ir.Resolve(x) == ir.Resolve(l.Elem) && l.Key != nil && ir.Resolve(mu.Key) == ir.Resolve(l.Key) {
 					if f, isF := k.graphField(l.Ranged); isF {
@@ -431,14 +628,14 @@ func (k *kahn) checkRelax() {
 	for b := range k.main.Blocks {
 		for _, in := range b.Instrs {
 			mu, ok := in.(*ssa.MapUpdate)
-			if !ok || ir.Resolve(mu.Map) != ssa.Value(k.D) {
+			if !ok || !k.isD(mu.Map) {
 				continue
 			}
 			n++
 			// value = D[key] - 1
 			okDec := false
 			if bo, isB := ir.Resolve(mu.Value).(*ssa.BinOp); isB && bo.Op == token.SUB {
-				if lk, isLk := ir.Resolve(bo.X).(*ssa.Lookup); isLk && ir.Resolve(lk.X) == ssa.Value(k.D) && k.samePath(lk.Index, mu.Key) {
+				if lk, isLk := ir.Resolve(bo.X).(*ssa.Lookup); isLk && k.isD(lk.X) && k.samePath(lk.Index, mu.Key) {
 					if c, isC := ir.ConstInt(bo.Y); isC && c == 1 {
 						okDec = true
 					}
@@ -534,7 +731,7 @@ func (k *kahn) allNodesField(v ssa.Value) bool {
 	if !ok {
 		return false
 	}
-	st, ok := derefStruct(k.fn.Params[0].Type())
+	st, ok := k.graphStruct()
 	if !ok {
 		return false
 	}
@@ -622,7 +819,7 @@ func (k *kahn) checkSeeds() {
 						}
 						lk, isLk := ir.Resolve(lkv).(*ssa.Lookup)
 						cst, isC := ir.ConstInt(cv)
-						if isLk && isC && cst == 0 && ir.Resolve(lk.X) == ssa.Value(k.D) && k.samePath(lk.Index, els[0]) {
+						if isLk && isC && cst == 0 && k.isD(lk.X) && k.samePath(lk.Index, els[0]) {
 							nonzero = true
 						}
 					}
@@ -701,7 +898,7 @@ func (k *kahn) checkVerdict() {
 			return nil, false
 		}
 		rg, ok := nx.Iter.(*ssa.Range)
-		if !ok || ir.Resolve(rg.X) != ssa.Value(k.D) {
+		if !ok || !k.isD(rg.X) {
 			return nil, false
 		}
 		for _, l := range k.loops {
@@ -764,7 +961,7 @@ func (k *kahn) checkVerdict() {
 			// false: after a complete scan of D in which every element was non-positive
 			var scan *ir.Loop
 			for _, l := range k.loops {
-				if l.Ranged != nil && ir.Resolve(l.Ranged) == ssa.Value(k.D) && !k.main.Blocks[l.Header] && l.Header.Dominates(b) && !l.Blocks[b] {
+				if l.Ranged != nil && k.isD(l.Ranged) && !k.main.Blocks[l.Header] && l.Header.Dominates(b) && !l.Blocks[b] {
 					scan = l
 				}
 			}
@@ -882,7 +1079,7 @@ func (k *kahn) countVerdict(res ssa.Value) (bool, string) {
 			fromD := len(ci.inits) == 1
 			if fromD {
 				la, isLen := lenArg(ci.inits[0])
-				fromD = isLen && ir.Resolve(la) == ssa.Value(k.D)
+				fromD = isLen && k.isD(la)
 			}
 			c, isC := ir.ConstInt(other)
 			if down && fromD && isC && c == 0 {
